@@ -273,4 +273,120 @@ def runScheduleP (cap : Nat) (taken : List Nat) (ids : List Nat) (checkUnderLock
   " ".intercalate pcs ++ " | " ++ ",".intercalate ((sortN (fresh sc.sys.table)).map toString) ++ " | " ++
     ",".intercalate ((sortN (fresh sc.sys.disk)).map toString)
 
+/-! ### the clean-up before the lock (ptt.tryCleanUser → checkAndExpireAccount → killUser)
+
+When the slot search before the lock finds no empty slot and `.fresh` is older than an hour, SetupNewUser
+walks .PASSWDS and tears down accounts expired for long enough — BEFORE PasswdLock, i.e. concurrently with
+whatever registration holds the lock. For one expirable slot `v` the tear-down is two atomic steps with the
+home-directory work between them:
+
+  cleanBegin   what killUser does to the shared state before the home directory: in the source nothing
+               (`unindex = false`); a killUser that first takes the id out of the index — SetUserID(v, "") —
+               is `unindex = true`: the slot joins the free chain while its record is still to be zeroed
+  cleanEnd     passwdSyncUpdate(v, empty record): .PASSWDS[v] is zeroed
+
+Whether the source writes the index there is a regenerated fact (`Gen.Reg.cleanUserCalls`). -/
+
+def cleanWritesIndexOf (calls : List String) : Bool := calls.contains "setUserID"
+def sourceCleanWritesIndex : Bool := cleanWritesIndexOf Gen.Reg.cleanUserCalls
+/-- the extraction saw the tear-down: tryCleanUser reaches killUser and the zero-record write, and takes no lock. -/
+def wellFormedClean (calls : List String) : Bool :=
+  calls.contains "killUser" && calls.contains "writeRecord" && !calls.contains "lock"
+/-- SetupNewUser runs the clean-up before it takes the lock. -/
+def cleanBeforeLockOf (calls : List String) : Bool := (calls.takeWhile (· ≠ "lock")).contains "tryClean"
+
+def hasEmpty (tbl : Nat → Option Nat) (cap : Nat) : Bool := (List.range cap).any (fun k => (tbl k).isNone)
+
+def cleanBegin (unindex : Bool) (s : Sys) (v : Nat) : Sys :=
+  if unindex then { s with table := setSlot s.table v none } else s
+
+def cleanEnd (s : Sys) (v : Nat) : Sys := { s with disk := setSlot s.disk v none }
+
+structure XSys where
+  sys : Sys
+  kill : Nat → Bool        -- the thread is inside killUser of slot v, the record not yet zeroed
+
+/-- one atomic step of the system with clean-up: a registration step of `t`, or `t` entering / leaving
+the tear-down of slot `v` (entered from `checked`, when the index has no empty slot and the record is there). -/
+inductive XAct where
+  | reg | enter | leave
+  deriving DecidableEq, Repr
+
+def xstep (P : Params) (unindex : Bool) (v : Nat) (x : XSys) (a : XAct) (t : Nat) : Option XSys :=
+  match a with
+  | .reg => if x.kill t then none else (step P x.sys t).map (fun s' => { x with sys := s' })
+  | .enter =>
+      if x.kill t then none
+      else match x.sys.pc t with
+        | .checked =>
+            if !hasEmpty x.sys.table P.cap && (x.sys.disk v).isSome then
+              some { sys := cleanBegin unindex x.sys v, kill := fun u => if u = t then true else x.kill u }
+            else none
+        | _ => none
+  | .leave =>
+      if x.kill t then some { sys := cleanEnd x.sys v, kill := fun u => if u = t then false else x.kill u }
+      else none
+
+inductive ReachableX (P : Params) (unindex : Bool) (v : Nat) (tbl : Nat → Option Nat) : XSys → Prop where
+  | init : ReachableX P unindex v tbl { sys := init tbl, kill := fun _ => false }
+  | step {x x' : XSys} (a : XAct) (t : Nat) : ReachableX P unindex v tbl x → xstep P unindex v x a t = some x' →
+      ReachableX P unindex v tbl x'
+
+/-! schedule-level semantics of the `regx` ops: as `regp`, plus the expirable slot `v` and the state of
+`.fresh`. A release from `checked` first does what SetupNewUser does before the lock: no empty slot and a
+stale `.fresh` ⇒ touch `.fresh`, and if the record of `v` is there enter its tear-down and stop in it (the
+harness holds the thread there: the account's aloha list is a FIFO). The next release leaves the tear-down
+(zero record) and goes on to the semaphore. -/
+
+structure XSched where
+  sc : Sched
+  kill : Nat → Bool
+  fresh : Bool
+
+def releaseX (P : Params) (unindex : Bool) (v : Nat) (n : Nat) (xs : XSched) (t : Nat) : XSched :=
+  if xs.kill t then
+    -- leave the tear-down, then on to semWait
+    let x' := cleanEnd xs.sc.sys v
+    let xs1 : XSched := { xs with sc := { xs.sc with sys := x' }, kill := fun u => if u = t then false else xs.kill u }
+    { xs1 with sc := releaseP P n xs1.sc t }
+  else if xs.sc.blocked t then xs
+  else match xs.sc.sys.pc t with
+    | .checked =>
+        if !hasEmpty xs.sc.sys.table P.cap && !xs.fresh then
+          if (xs.sc.sys.disk v).isSome then
+            { xs with sc := { xs.sc with sys := cleanBegin unindex xs.sc.sys v }, fresh := true,
+                      kill := fun u => if u = t then true else xs.kill u }
+          else { xs with fresh := true, sc := releaseP P n xs.sc t }
+        else { xs with sc := releaseP P n xs.sc t }
+    | _ => { xs with sc := releaseP P n xs.sc t }
+
+def applyEvX (P : Params) (unindex : Bool) (v : Nat) (n : Nat) (xs : XSched) (e : Nat) : XSched :=
+  match decodeEv e with
+  | .rel t => releaseX P unindex v n xs t
+  | .wake u => { xs with sc := wakeTid P xs.sc u }
+  | .start q => { xs with sc := startProc xs.sc q }
+
+def showOpt : Option Nat → String
+  | none => "0"
+  | some a => toString a
+
+/-- answer as for `regp`, with `killing` for a thread inside the tear-down, then the expirable slot's
+entry in the index and in .PASSWDS. -/
+def runScheduleX (cap : Nat) (taken : List Nat) (ids : List Nat) (checkUnderLock unindex : Bool) (v : Nat)
+    (sched : List Nat) : String :=
+  let tbl : Nat → Option Nat := fun k => match taken[k]? with
+    | some 0 => none
+    | some a => some a
+    | none => none
+  let P : Params := { cap := cap, idOf := fun t => ids.getD t 0, pick := pickLowest cap, checkUnderLock := checkUnderLock }
+  let n := ids.length
+  let xs := sched.foldl (applyEvX P unindex v n) { sc := { sys := init tbl, blocked := fun _ => false }, kill := fun _ => false, fresh := false }
+  let sc := xs.sc
+  let pcs := (List.range n).map (fun t => if xs.kill t then "killing" else showPC (sc.blocked t) (sc.sys.pc t))
+  let fresh (f : Nat → Option Nat) := (List.range cap).filterMap (fun k => if (tbl k).isSome then none else f k)
+  let sortN (l : List Nat) := (l.toArray.qsort (· < ·)).toList
+  " ".intercalate pcs ++ " | " ++ ",".intercalate ((sortN (fresh sc.sys.table)).map toString) ++ " | " ++
+    ",".intercalate ((sortN (fresh sc.sys.disk)).map toString) ++ " | " ++
+    showOpt (sc.sys.table v) ++ ":" ++ showOpt (sc.sys.disk v)
+
 end PttVerif.C15
